@@ -426,6 +426,14 @@ func (u UnitBytes) MarshalJSON() ([]byte, error) {
 func newTraversal[S, T any](fn CollectorFn[S, T]) *traversal[S, T] {
 	return &traversal[S, T]{
 		Options: &sharedOptions,''', "every walk writes its options into one package-level value (GLOBADDR)"),
+ ("C05", "memo-in-extended-files-map", "K", "loader/extends.go",
+  '''		baseServices, processor, err = getExtendsBaseFromFile(ctx, name, ref, filename, refFilename, opts, tracker)''',
+  '''		baseServices, processor, err = getExtendsBaseFromFile(ctx, name, ref, filename, refFilename, opts, tracker)
+		services = baseServices''', "the resolved service is recorded in the extended file's services: resolved twice when a dependent is visited first (EXTMEMO; the defect repaired by b6f377f)"),
+ ("C02", "memo-in-extended-files-map", "K", "loader/extends.go",
+  '''		baseServices, processor, err = getExtendsBaseFromFile(ctx, name, ref, filename, refFilename, opts, tracker)''',
+  '''		baseServices, processor, err = getExtendsBaseFromFile(ctx, name, ref, filename, refFilename, opts, tracker)
+		services = baseServices''', "load succeeds or fails depending on which service the map range visits first (EXTMEMO)"),
 ]
 
 
